@@ -47,6 +47,36 @@ impl Property for C01 {
     fn generate(&self, tier: Tier, seed: u64) -> Vec<Value> {
         let mut v = gen::draw(seed, "C01-W", tier.pick(260, 12000), gen_w_case);
         v.extend(gen::draw(seed, "C01-F", tier.pick(120, 5000), gen_f_case));
+        // (d) documents emitted by real schemars for generated Rust universes:
+        // inside the supported fragment, so a refusal is itself a violation
+        match super::c04::schemars_cases("C01", seed, tier.pick(25, 600), 1) {
+            Ok((docs, dropped)) => {
+                gen::excluded("universes-not-compilable(generator)", dropped as u64);
+                for d in docs {
+                    let doc = d["schema"].clone();
+                    // a self-referential root appears twice in the output (known finding KF-023)
+                    if doc["title"].as_str().map(|t| doc["definitions"].get(t).is_some()).unwrap_or(false) && d["t"].as_u64().unwrap_or(0) % 2 == 0 {
+                        gen::excluded("recursive-root-document", 1);
+                        continue;
+                    }
+                    let history = if d["t"].as_u64().unwrap_or(0) % 2 == 0 {
+                        vec![Step::Root { doc }]
+                    } else {
+                        let mut root = doc.as_object().cloned().unwrap_or_default();
+                        let defs = root.remove("definitions").unwrap_or(json!({}));
+                        root.remove("$schema");
+                        let title = root.get("title").and_then(|t| t.as_str()).map(|s| s.to_string());
+                        vec![Step::Refs { defs }, Step::Type { schema: Value::Object(root), hint: title }]
+                    };
+                    let case = Case { history, extra: json!({"source": "schemars", "supported": true}), ..Default::default() };
+                    v.push(gen::to_value(&case));
+                }
+            }
+            Err(e) => {
+                eprintln!("INFRA: {e}");
+                std::process::exit(2);
+            }
+        }
         v
     }
     fn prepare(&self, case_v: &Value) -> Unit {
